@@ -361,7 +361,12 @@ class WebSocketApp:
             # Finally call the callback AFTER all teardown is complete
             self._callback(self.on_close, close_status_code, close_reason)
 
+        # with an external dispatcher: a reconnect has been scheduled and not started yet
+        reconnect_scheduled = False
+
         def setSock(reconnecting: bool = False) -> None:
+            nonlocal reconnect_scheduled
+            reconnect_scheduled = False
             if reconnecting and not self.keep_running:
                 # close() was called while waiting for the reconnect interval
                 return
@@ -528,6 +533,11 @@ class WebSocketApp:
             ],
             reconnecting: bool = False,
         ) -> bool:
+            nonlocal reconnect_scheduled
+            if reconnect_scheduled and not isinstance(e, (KeyboardInterrupt, SystemExit)):
+                # the connection has been given up already (its old transport is still
+                # registered with the external dispatcher): one loss, one new attempt
+                return
             if not self.keep_running and not isinstance(
                 e, (KeyboardInterrupt, SystemExit)
             ):
@@ -552,6 +562,7 @@ class WebSocketApp:
                     _logging.debug(
                         f"Calling custom dispatcher reconnect [{len(inspect.stack())} frames in stack]"
                     )
+                    reconnect_scheduled = True
                     dispatcher.reconnect(reconnect, setSock)
             else:
                 _logging.error(f"{e} - goodbye")
